@@ -611,8 +611,8 @@ def make_rename_shaped(rng, m):
         return None
     kept = []
     for r in lines:
-        if r["featuretype"] == "transcript" and val(r, tkey) in map_t:
-            continue          # no transcript line for a transcript named '<gene id>_<k>': it is a derived feature
+        # (a transcript named '<gene id>_<k>' keeps its own line if it has one - F-C03-2 is repaired: the explicit line stays
+        # the single feature under that id, attributes included)
         for pair in r["attrs"]:
             if pair[0] == tkey and pair[1]:
                 pair[1] = [map_t.get(x, x) for x in pair[1]]
